@@ -1,5 +1,5 @@
 (* Entry point of the extracted executable for C11. *)
-From CV Require Import Base.Bytes PP.Cond PP.Eval PP.Macro.
+From CV Require Import Base.Bytes PP.Cond PP.Eval PP.Macro PP.Stringize.
 Local Open Scope N_scope.
 
 Definition nd (s : str) : N := match N_of_dec s with Some z => z | None => 0 end.
@@ -238,6 +238,8 @@ Definition run (fields : list str) : list str :=
             end
         | _ => BAD
         end
+      else if str_eqb tag [104;97;115;104] (* "hash" tok... : # applied to the tokens written without white space *) then
+        [stringize_s (concat rest); stringize_c (map (fun t => (false, t)) rest)]
       else if str_eqb tag [109;120] (* "mx" nmacros table items *) then
         match rest with
         | k :: rest' =>
